@@ -84,6 +84,8 @@ fn core_stages() -> Vec<Op1> {
     Op1::Pairwise,
     Op1::BufferWithCount(2),
     Op1::OnErrorMap,
+    Op1::OnComplete,
+    Op1::OnError,
     Op1::Finalize,
     Op1::BoxIt,
     Op1::GroupByFlatten(K::Mod2),
